@@ -1749,9 +1749,11 @@ class Summaries:
                     return p.fields.get('0') if p and p.fields.get('0') is not None else eng.mk_default(ctx.st, ctx.ret_ty)
                 if o.tags == {1}:
                     return d
-                s2 = ctx.st.fork()
                 p = o.payload.get(0)
                 pv = p.fields.get('0') if p and p.fields.get('0') is not None else eng.mk_default(ctx.st, ctx.ret_ty)
+                if isinstance(pv, BoolV) and pv.val is None and pv.atom is None and isinstance(d, BoolV):
+                    return BoolV(None)      # an unknown boolean or the default: an unknown boolean (no case split needed)
+                s2 = ctx.st.fork()
                 return [(ctx.st, pv), (s2, d)]
             return eng.mk_default(ctx.st, ctx.ret_ty)
 
@@ -2719,6 +2721,15 @@ class Summaries:
             log(ctx, 'map.remove', spath(path), k)
             rty = ctx.ret_ty
             ety = elem_type(c.ty, 'map')
+            if isinstance(k, (StrV, CharV)):
+                k = sval(ctx, k)
+            hit = map_lookup(ctx, c, k)
+            if hit is not None:
+                # exactly known map, constant key: the outcome is decided
+                kn = tuple(kv for kv in c.known if not (_is_const(kv[0]) and kv[0].key() == k.key()))
+                nc0 = bump(ctx, path, c, known=kn, length=None)
+                carry_contains(ctx, c, nc0, k, False)
+                return none(rty) if hit == ('absent',) else some(rty, hit)
             key = ('contains', c.key(), k.key() if isinstance(k, V) else None)
             cur = ctx.st.vn.get(('fact', key))
             val = eng.mk_default(ctx.st, ety)
@@ -3121,7 +3132,8 @@ class Summaries:
                 return BoolV(r)
             return BoolV(None, ('cmp', 'eq', ln, NumV(None, 0, 'usize')))
 
-        @reg('<std::vec::Vec<T, A> as std::ops::Index<I>>::index')
+        @reg('<std::vec::Vec<T, A> as std::ops::Index<I>>::index', 'core::slice::index::<impl std::ops::Index<I> for [T]>::index',
+             'std::slice::index::<impl std::ops::Index<I> for [T]>::index')
         def _(ctx):
             r, i = ctx.args
             path, c = coll_at(ctx, r, 'vec')
@@ -3151,8 +3163,18 @@ class Summaries:
                         newlen = eng.num_sub(st, hi, lo, 'usize')
                 ctx.oblige('bounds', 'slice range index within length', ok, facts)
                 root = ('H', 'sub%d' % next(_c))
+                kn = None
+                if ok and c.known is not None and (lo is None or (isinstance(lo, NumV) and lo.sym is None)) and (hi is None or (isinstance(hi, NumV) and hi.sym is None)):
+                    # exactly known contents, constant bounds: the sub-slice is exactly known too
+                    a_ = lo.k if lo is not None else 0
+                    b_ = hi.k if hi is not None else len(c.known)
+                    if 'Inclusive' in i.ty and hi is not None:
+                        b_ += 1
+                    if 0 <= a_ <= b_ <= len(c.known):
+                        kn = tuple(c.known[a_:b_])
+                        newlen = NumV(None, len(kn), 'usize')
                 st.store[root] = CollV('slice', elem_type(c.ty, c.kind), next(_c), length=newlen if newlen is not None else eng.fresh_num(st, 'usize', 0, 2**40),
-                                       elem=c.elem, prov=('subslice', c.prov))
+                                       known=kn, elem=c.elem, prov=('subslice', c.prov))
                 return RefV((root, ()))
             ok = False
             facts = ''
